@@ -11,6 +11,7 @@ import struct
 from hypothesis import strategies as st
 
 from ..runner import Outcome, Enum, Hyp
+from ..fuzz.driver import atheris_driver
 
 ID = "C16"
 LEVEL = "exploration"
@@ -445,12 +446,13 @@ def case_ip6bad(c, out):
     out.label("ip6text-must-raise")
     if not r:
       out.fail("ip6-malformed-accepted", "IPAddr6(%r) returned %s" % (text, v), cls=c.get("cls", "?"))
-  elif ref is not None:
+  elif ref is not None and "%" not in text:
     if r:
       out.fail("ip6-wellformed-rejected", "IPAddr6(%r) raised %r" % (text, v))
     elif v.raw != ref.packed:
       out.fail("ip6-misparsed", "IPAddr6(%r) = %s, ipaddress says %s" % (text, v, ref))
   else:
+    # includes RFC 4007 zone suffixes ('%eth0'), which ipaddress accepts and POX does not claim to
     out.label("ip6text-ambiguous-not-judged")
 
 
@@ -1011,9 +1013,28 @@ def _strategy(tier):
   )
 
 
+def case_from_bytes(data):
+  """atheris entry: the bytes are a text offered to one of the three text parsers, judged differentially
+  against ipaddress (IPv4/IPv6: values must agree whenever both accept) -- the kind is the first byte."""
+  if len(data) < 2:
+    return None
+  try:
+    text = data[1:].decode("ascii")
+  except UnicodeDecodeError:
+    return None
+  if "\0" in text:
+    return None
+  k = data[0] % 2
+  if k == 0:
+    return {"k": "ip4text", "text": text}
+  return {"k": "ip6bad", "text": text}
+
+
 def plan(tier):
   n = 64000 if tier == "quick" else 600000
   return [
     Enum("grids", lambda: _all_enum(tier), shards=16),
     Hyp("generated", lambda: _strategy(tier), examples=n, shards=16),
+    atheris_driver("fuzz-text", "pvf.props.c16", runs=40000 if tier == "quick" else 2000000, corpus="corpus/C16",
+                   max_len=48, timeout_s=60 if tier == "quick" else 900),
   ]
